@@ -13,6 +13,8 @@ TASKS = ["self._after_events", "self._after_threads", "self._pending_send_cancel
 
 
 def register(w):
+    ANN_X = "forall[Node](lambda n: implies(n in self._active_state_nodes, n != None))"
+    HWF_X = "forall[str, int](lambda k, i: implies(k in self._history and 0 <= i and i < len(self._history[k]), self._history[k][i] != None))"
     STATE_ALL = [A, "self._history", "self.context", "self.status", "self.output", "self.error", "self._action_depth",
                  "self._event_queue", "self.g_accepted", *TASKS, "Flag.is_set", "Trans.target_str"]
     Q0, ACC0 = "self._event_queue", "self.g_accepted"
@@ -34,12 +36,15 @@ def register(w):
         c.mod(*STATE_ALL)
         c.req("transition != None and transition.source != None and event != None")
         c.req(f"forall[Node](lambda n: implies(n in {A}, n != None))")
+        c.req("forall[str, int](lambda k, i: implies(k in self._history and 0 <= i and i < len(self._history[k]), self._history[k][i] != None))")
         c.req("ghost:self._is_processing")
         c.ens(f"implies(old(transition.target_str) == None or old(transition.target_str) == '', set_eq({A}, old({A})))", label="targetless-transition-keeps-the-configuration")
+        c.ens(ANN_X, label="configuration-holds-states")
+        c.ens(HWF_X, label="history-holds-states")
         c.ens(APP0, label="ghost:queue-append-only")
         c.ens("status_reach(old(self.status), self.status)", label="status-moves-along-allowed-edges")
         c.may_raise("Exception", ensures=[("configuration-unchanged-when-the-transition-aborts", f"set_eq({A}, old({A}))"), ("queue-append-only", "ghost:" + APP0),
-                                          ("status-moves-along-allowed-edges", "status_reach(old(self.status), self.status)")])
+                                          ("status-moves-along-allowed-edges", "status_reach(old(self.status), self.status)"), ("history-holds-states", HWF_X)])
         c.loop(0, inv=[]).loop(1, inv=[])
 
     @w.contract(SI + "_process_single_transition", props=["C07", "C01"])
@@ -48,6 +53,7 @@ def register(w):
         c.mod(*STATE_ALL)
         c.req("transition != None and transition.source != None and target_state != None and event != None")
         c.req(f"forall[Node](lambda n: implies(n in {A}, n != None))")
+        c.req("forall[str, int](lambda k, i: implies(k in self._history and 0 <= i and i < len(self._history[k]), self._history[k][i] != None))")
         c.req("ghost:self._is_processing")
         c.ens(APP0, label="ghost:queue-append-only")
         c.ens("status_reach(old(self.status), self.status)", label="status-moves-along-allowed-edges")
@@ -66,11 +72,15 @@ def register(w):
         c.after("self._schedule_state_tasks(node)", "rearmed = store(rearmed, node, True)")
         c.before("raise", "in_rearm = False")
         c.ens("not final_aborted", label="ghost:an-aborted-transition-is-reported-not-swallowed")
+        c.ens(ANN_X, label="configuration-holds-states")
+        c.ens(HWF_X, label="history-holds-states")
         c.may_raise("Exception", ensures=[
             ("configuration-rolled-back-exactly", f"set_eq({A}, old({A}))"), ("queue-append-only", "ghost:" + APP0),
-            ("status-moves-along-allowed-edges", "status_reach(old(self.status), self.status)"),
+            ("status-moves-along-allowed-edges", "status_reach(old(self.status), self.status)"), ("history-holds-states", HWF_X),
             # unless re-arming itself failed, every state whose timers were cancelled for the exit is re-armed
             ("exited-states-timers-and-services-re-armed", f"ghost:implies(final_exit_started and not final_in_rearm, forall[Node](lambda n: implies(n in old({A}) and n in final_exitset, final_rearmed[n])))")])
+        CPN = "forall[int](lambda i: implies(0 <= i and i < len(combined_path), combined_path[i] != None))"
+        c.loop(0, inv=[CPN]).loop(1, inv=[CPN])
         c.loop(2, inv=["aborted and in_rearm and exit_started",
                        f"set_eq({A}, old({A}))",
                        "forall[int](lambda j: implies(0 <= j and j < _i and _seq[j] in exitset, rearmed[_seq[j]]))"])
@@ -92,19 +102,53 @@ def register(w):
         c.mod(*TASKS)
         c.may_raise("Exception")
 
-    @w.contract(BI + "_process_event", also=[SI + "_process_event"], props=["C01", "C02"])
+    PE_MODS = [A, "self._history", "self.context", "self.status", "self.output", "self.error", "self._action_depth",
+               "self._event_queue", "self.g_accepted", *TASKS, "Flag.is_set", "Trans.target_str"]
+    HWF = "forall[str, int](lambda k, i: implies(k in self._history and 0 <= i and i < len(self._history[k]), self._history[k][i] != None))"
+    ANN_ = "forall[Node](lambda n: implies(n in self._active_state_nodes, n != None))"     # the configuration holds states
+    APP_PE = "appended_only(old(self._event_queue), old(self.g_accepted), self._event_queue, self.g_accepted)"
+
+    @w.contract(BI + "_process_event", props=["C01", "C02"])
     def _(c):
         c.bounded_only = True
         c.param("event", Ev)
-        c.mod(A, "self._history", "self.context", "self.status", "self.output", "self.error", "self._action_depth",
-              "self._event_queue", "self.g_accepted", *TASKS)
+        c.mod(*PE_MODS)
         c.req(f"legal({A})")
         c.ens(f"legal({A})", label="legal-after-event")
-        # P-only clause (ghost state): actions reach the queue only through send(), which appends while processing
-        c.ens("appended_only(old(self._event_queue), old(self.g_accepted), self._event_queue, self.g_accepted)", label="ghost:queue-append-only")
+        c.ens(APP_PE, label="ghost:queue-append-only")
         c.ens("status_reach(old(self.status), self.status)", label="status-moves-along-allowed-edges")
-        c.may_raise("Exception", ensures=[f"legal({A})", "ghost:appended_only(old(self._event_queue), old(self.g_accepted), self._event_queue, self.g_accepted)",
-                                          "status_reach(old(self.status), self.status)"])
+        c.may_raise("Exception", ensures=[f"legal({A})", "ghost:" + APP_PE, "status_reach(old(self.status), self.status)"])
+
+    # the synchronous macrostep: select, then run each nominated transition (C02)
+    @w.contract(SI + "_process_event", props=["C01", "C02", "C07"])
+    def _(c):
+        c.param("event", Ev)
+        c.mod(*PE_MODS)
+        c.req(f"legal({A})", "event != None", HWF, ANN_)
+        c.req("ghost:self._is_processing")
+        # NOT proved here (needs contract E of _enter_states): that the configuration is legal again afterwards - assumed for the
+        # callers under proof (_process_event_queue), evaluated around every real call by the bounded layer
+        c.ens(f"legal({A})", label="assume:legal-after-event")
+        c.ens(APP_PE, label="ghost:queue-append-only")
+        c.ens("status_reach(old(self.status), self.status)", label="status-moves-along-allowed-edges")
+        c.ens(ANN_, label="configuration-holds-states")
+        c.ens(HWF, label="history-holds-states")
+        # C02: an event with no nominee is a no-op - nothing at all is written
+        c.expose = ["transitions"]
+        c.local("transitions", ListSort(Trans))
+        NOOP = (f"set_eq({A}, old({A})) and self.context == old(self.context) and self.status == old(self.status) and self.output == old(self.output) "
+                f"and self.error == old(self.error) and seq_eq(self._event_queue, old(self._event_queue)) "
+                f"and forall[str](lambda k: (k in self._history) == (k in old(self._history)) and implies(k in self._history, seq_eq(self._history[k], old(self._history)[k]))) "
+                f"and forall[str](lambda k: (k in self._after_events) == (k in old(self._after_events))) and len(self._actors) == len(old(self._actors)) "
+                f"and forall[Flag](lambda f: f.is_set == old(f.is_set))")
+        c.ens(f"implies(len(final_transitions) == 0, {NOOP})", label="ghost:event-without-nominee-changes-nothing")
+        c.ghost("fired", INT, init="0")
+        c.after("self._execute_transition_sync(transition, event)", "fired = fired + 1")
+        c.ens("final_fired <= len(final_transitions)", label="ghost:no-transition-outside-the-nominated-set-runs")
+        c.ens("implies(len(final_transitions) == 1, final_fired == 1)", label="ghost:a-single-nominee-always-fires")
+        c.may_raise("Exception", ensures=["assume:" + f"legal({A})", "ghost:" + APP_PE, "status_reach(old(self.status), self.status)", ANN_, HWF])
+        c.loop(0, inv=["fired <= _i", "implies(len(transitions) == 1, fired == _i)", APP_PE, "status_reach(old(self.status), self.status)",
+                       f"forall[Node](lambda n: implies(n in {A}, n != None))", HWF])
 
     # ---- callees of the exit/entry routines -----------------------------------------------------------
     @w.contract("xstate_statemachine.interpreter:Interpreter._cancel_state_tasks", props=["C08"])
@@ -215,11 +259,14 @@ def register(w):
         c.defaults = {"event": "None"}
         c.mod(A, "self._history", "self.context", "self._action_depth", "self.status", "self.output", "self.error", *TASKS, Q_, ACC_, "Flag.is_set")
         c.req("forall[int](lambda i: implies(0 <= i and i < len(states_to_exit), states_to_exit[i] != None))")
+        c.req(f"forall[Node](lambda n: implies(n in {A}, n != None))")
         c.req("ghost:self._is_processing")        # exit actions run while an event is being processed (see _execute_actions)
         c.ens(f"forall[Node](lambda n: (n in {A}) == (n in old({A}) and not (n in states_to_exit)))", label="removes-exactly-the-listed-states")
         c.ens(APPENDED, label="ghost:queue-append-only")
         c.ens(KEEP[0], label="status-moves-along-allowed-edges")
-        c.may_raise("Exception", ensures=[f"forall[Node](lambda n: implies(n in {A}, n in old({A})))", "ghost:" + APPENDED, KEEP[0]])
+        c.req(HWF_X)
+        c.ens(HWF_X, label="history-holds-states")
+        c.may_raise("Exception", ensures=[f"forall[Node](lambda n: implies(n in {A}, n in old({A})))", "ghost:" + APPENDED, KEEP[0], HWF_X])
 
     @w.contract(BI + "_exit_states", props=["C01", "C03"])
     def _(c):
